@@ -82,6 +82,14 @@ def _scoid():
 TRANSLATORS.append(("tr_scoid", _scoid))
 GEN_FILES.append("Gen/ScoIdTables.v")
 
+def _markings():
+    import tr_markings
+    text, _ = tr_markings.translate(common.REPO, None)
+    common.write_if_changed(os.path.join(common.COQ, "Gen", "MarkingFacts.v"), text)
+
+
+TRANSLATORS.append(("tr_markings", _markings))
+GEN_FILES.append("Gen/MarkingFacts.v")
 
 
 def run_all():
